@@ -497,7 +497,15 @@ func uploadMain(rc *RunCtx) {
 					pl := spec.Geo.PieceLen(i)
 					b := uint32(st.Choice(int((pl+chunkSize-1)/chunkSize))) * chunkSize
 					l := uint32(min(int64(chunkSize), pl-int64(b)))
-					switch st.Weighted(12, 1, 1, 1, 1, 1, 1) {
+					switch st.Weighted(12, 1, 1, 1, 1, 1, 1, 2) {
+					case 7:
+						// a full block asked for where the torrent ends earlier
+						l = chunkSize
+						if st.Bool(1, 2) {
+							i = np - 1
+							pl = spec.Geo.PieceLen(i)
+							b = uint32((pl - 1) / chunkSize * chunkSize)
+						}
 					case 1:
 						l = 0
 					case 2:
@@ -526,7 +534,26 @@ func uploadMain(rc *RunCtx) {
 					}
 				case 1:
 					simrt.Fault("not-interested")
-					p.Send(refwire.NotInterested{})
+					var sp *peer.Peer
+					for _, q := range t.SimPeers() {
+						if string(q.Id) == string(p.ID) {
+							sp = q
+						}
+					}
+					if sp != nil && p.conn != nil && st.Bool(1, 2) {
+						// aimed: held in the network, released at the step at
+						// which a command of the torrent (an unchoke computed
+						// while we were still interested) sits in our peer's queue
+						c := p.conn
+						c.Stall()
+						p.Send(refwire.NotInterested{})
+						if simrt.AwaitStep(func() bool { return sp.SimCommands() > 0 }, time.Duration(1+st.Choice(15))*time.Second) {
+							simrt.Probe("not-interested-released-with-a-command-pending")
+						}
+						c.Unstall()
+					} else {
+						p.Send(refwire.NotInterested{})
+					}
 					simrt.Sleep(time.Duration(st.Choice(2000)) * time.Millisecond)
 					p.Send(refwire.Interested{})
 				case 2:
